@@ -2158,7 +2158,7 @@ func genTrans(repo, outDir string) error {
 	var sb strings.Builder
 	sb.WriteString("-- REGENERATED by /verif/tools/extract (translate.go) from /repo on every check run. Do not edit.\n")
 	sb.WriteString("-- Go → Lean translation of the whitelisted functions; subset and semantics: tools/extract/translate.go.\n")
-	sb.WriteString("import Corerad.Basic\nimport Corerad.Model.Config\nimport Corerad.Model.ListUtil\nimport Corerad.Model.RA\nimport Corerad.Model.Handle\n\n")
+	sb.WriteString("import Corerad.Basic\nimport Corerad.Model.Config\nimport Corerad.Model.ListUtil\nimport Corerad.Model.RA\nimport Corerad.Model.Handle\nimport Corerad.Model.Monitor\n\n")
 	sb.WriteString("set_option linter.unusedVariables false\n\nnamespace Corerad.Gen.Trans\n\nopen Corerad\n\n")
 	defer func() { curTag = "" }()
 	for _, spec := range whitelist {
@@ -2270,6 +2270,18 @@ func genTrans(repo, outDir string) error {
 	} else {
 		sb.WriteString(d.text + "\n\n")
 		facts["TransC07.Advertiser_handle"] = d.text
+	}
+	// the metric operations of (*Monitor).handle (translate_monitor.go)
+	curTag = "TransC18"
+	if p, err := loadPkg(repo, "internal/corerad"); err != nil {
+		failf("translate: Monitor.handle: %v", err)
+	} else if d, err := translateMonitorHandle(p); err != nil {
+		failf("%s", err)
+		sb.WriteString("-- NOT TRANSLATED: " + docSafe(err.Error()) + "\n\n")
+		facts["TransC18.Monitor_handle"] = "NOT TRANSLATED: " + err.Error()
+	} else {
+		sb.WriteString(d.text + "\n\n")
+		facts["TransC18.Monitor_handle"] = d.text
 	}
 	// the lifetime computed by NewPREF64 (translate_synth.go)
 	curTag = "TransC01"
